@@ -154,6 +154,7 @@ def run(tier, seed):
         for shape in SHAPES:
             for path in [(), ("cond-arrow", "let"), ("when", "case-clause"), ("and", "or")]:
                 cases.append({"shape": shape, "path": list(path), "via_apply": False, "N": 200000, "only": "release"})
+    cases = core.mine(cases)
     ctx.rule = ("loops = tail-context path (every single context, %s compositions of two%s) x %d loop shapes x direct/apply call x N in {40, %d}; "
                 "stack depth and live heap sampled at every iteration by a native probe. distinct_nontrivial = distinct (shape, context path, call style) "
                 "loops whose probe series was judged" % ("all 256" if tier != "quick" else "40 sampled", ", 400 sampled of three" if tier != "quick" else "", len(SHAPES), bigN))
